@@ -1,16 +1,18 @@
 import PlumVerif.Model.ProducerExc
 import PlumVerif.Model.Pool
 /-
-C09 — which exception classes are contained, which are a lost connection (Model/ProducerExc.lean).  The except
-clauses and the subclass relation come from the source on every run (`Gen.producerHandlers`, `Gen.consumerHandlers`,
-`Gen.excIsA`): narrowing the consumer's `except Exception`, moving `task_done` out of `finally`, taking the entry
-lookup out of the `try`, or catching OSError before ProtocolError breaks a theorem below.
+C09 — which exception classes are contained, which are a lost connection (Model/ProducerExc.lean).  The reactions
+come from probes of the real coroutines on every run (`Gen.producerProbe`, `Gen.consumerProbe`, `Gen.excIsA`): narrowing
+the consumer's `except Exception`, moving `task_done` out of `finally`, taking the entry lookup out of the `try`, or
+catching OSError before ProtocolError changes a table and breaks a theorem below.
 -/
 namespace PlumVerif.C09Contain
 open PlumVerif PlumVerif.Contain PlumVerif.Producer
 
 /-- the subclass table is definite: no family whose representatives disagree about a class a clause names -/
-theorem families_definite : Gen.excIsA.all (fun r => r.2.2 != 2) = true := by decide
+theorem families_definite :
+    Gen.excIsA.all (fun r => r.2.2 != 2) = true ∧ Gen.consumerProbe.all (fun r => r.2.2 != 2) = true ∧
+    Gen.producerProbe.all (fun r => r.2 != "mixed") = true := by decide
 
 /-- **producer_reaction_table**: what `frame_producer` does with an exception raised inside its `try`, per family:
 protocol errors and any other exception are logged and the loop goes on; OSError and the time-out are a lost
@@ -29,7 +31,8 @@ raises — OSError and TimeoutError included —, the consumer logs it and goes 
 theorem consumer_contains_every_exception (e : Exc) (h : e ≠ .cancelled) : consumerReaction e = .continues := by
   cases e <;> first | decide | exact absurd rfl h
 
-/-- … the frame is acknowledged in `finally`, and both `get_device_entry` and `handle_frame` are inside the `try` -/
+/-- … at both sites alike — obtaining the entry and handling —, the frame acknowledged each time (the probe's verdict
+includes `task_done`) -/
 theorem consumer_accounts : consumerAccounts = true := by decide
 
 /-- the pool machine's `contain = true` IS the code: computed from the clauses of the source -/
@@ -60,6 +63,6 @@ theorem producer_machine_agrees (pe : PErr) (e : Exc) (h : e ≠ .cancelled) :
 
 /-- what a consumer WITHOUT the clause would be is the pool machine with `contain = false`: `C09.uncontained_counterexample`
 (Props/C09.lean) — three raising frames and every consumer is gone, the frames never acknowledged. -/
-example : react [] Exc.other = .propagates := rfl
+example : consumerReaction .cancelled = .propagates := by decide
 
 end PlumVerif.C09Contain
